@@ -33,6 +33,7 @@ From V Require Import Proto.BasicSenderDefs.
 From V Require Import Proto.ThreadPoolDefs.
 From V Require Import Proto.NewThreadDefs.
 From V Require Import Proto.SrThunkDefs.
+From V Require Import Proto.RemoteQueueDefs.
 Extraction Blacklist List String Int.
 Cd "../ocaml".
 Extraction "model.ml"
@@ -204,5 +205,10 @@ Extraction "model.ml"
   SrThunk.init
   SrThunk.resumed
   SrThunk.quiescent
+  RemoteQueue.step
+  RemoteQueue.init
+  RemoteQueue.executed
+  RemoteQueue.returned
+  RemoteQueue.blocked
   (*END*).
 Cd "../coq".
